@@ -184,6 +184,30 @@ def _as_expression(fn):
         if x is not fn and isinstance(x, (ast.FunctionDef, ast.AsyncFunctionDef, ast.Lambda, ast.Yield, ast.YieldFrom, ast.Global, ast.Nonlocal,
                                           ast.NamedExpr, ast.Await)):
             return None
+    # leading temporaries  `t = e`  (bound once, read once, e without side effects on what follows) are folded into what follows
+    if len(body) > 1 and all(isinstance(s_, ast.Assign) for s_ in body[:-1]) and len(body) <= 6:
+        work = _clone(body)
+        ok_fold = True
+        while len(work) > 1 and ok_fold:
+            a0 = work[0]
+            if not (len(a0.targets) == 1 and isinstance(a0.targets[0], ast.Name)):
+                ok_fold = False
+                break
+            t_ = a0.targets[0].id
+            stores = [x for s_ in work for x in ast.walk(s_) if isinstance(x, ast.Name) and x.id == t_ and isinstance(x.ctx, ast.Store)]
+            loads = [x for s_ in work[1:] for x in ast.walk(s_) if isinstance(x, ast.Name) and x.id == t_ and isinstance(x.ctx, ast.Load)]
+            if len(stores) != 1 or len(loads) != 1 or any(isinstance(x, ast.Name) and x.id == t_ for x in ast.walk(a0.value)):
+                ok_fold = False
+                break
+
+            class _F(ast.NodeTransformer):
+                def visit_Name(self, n_):
+                    if n_.id == t_ and isinstance(n_.ctx, ast.Load):
+                        return ast.copy_location(_clone(a0.value), n_)
+                    return n_
+            work = [_F().visit(s_) for s_ in work[1:]]
+        if ok_fold and len(work) == 1 and isinstance(work[0], ast.Return):
+            body = work
     expr = body[-1].value
 
     def fold(stmts, tail):
